@@ -11,8 +11,14 @@ starting from the empty state, with the executions running either the bare funct
 decorator (`b = true`) whose ttl is any `T` (in ticks).  Time steps are stutter steps for single-flight
 (`time_step_is_stutter`): the property has no ttl carve-out - an execution is joined while it is in flight however
 long it has been running (`old_execution_is_still_joined`), and for the bare decorator time steps can be erased
-from a trace altogether (`time_erasure_bare`).  The clock is read in one place only, by the cache decorator
-underneath: whether a stored result is still a hit for a call that found nothing in flight (`lookupCached`).
+from a trace altogether (`time_erasure_bare`).  The clock is read by the cache decorator underneath only: is a stored
+result still there / still fresh for a call that found nothing in flight (`look`), is the lock key still there.
+
+The configuration `cfg : Cfg` is arbitrary in every theorem: bare function, plain cache decorator, or `early` with any
+ttl / early_ttl, `background` or not.  `early`'s RECALCULATIONS - tasks that call the wrapped function again for a stale
+value, outside `tasks` - are part of the model (`recalcs`, `rtable`, `lock`, actions `rstep` / `rfinish`); the bound
+"one body per key at a time" (`body_running_count_le_one`) counts them, needs the per-key `recalculations` table of
+repair D44 (`cfg.guarded = true`) and fails without it (`recalculation_table_is_necessary`).
 
 An execution's outcome is one of three: it returned a value, raised an exception, or *ended cancelled*
 (`Outcome.cancelled`: the body's own await was cancelled underneath it - distinct from the cancellation of a
